@@ -22,7 +22,9 @@ where
 
     let reader: Box<dyn Read + '_> = match compression_method {
         CompressionMethod::None => Box::new(reader.take(uncompressed_size)),
-        CompressionMethod::Gzip => Box::new(GzDecoder::new(reader.take(compressed_size))),
+        CompressionMethod::Gzip => Box::new(InvalidDataReader(GzDecoder::new(
+            reader.take(compressed_size),
+        ))),
         _ => {
             return Err(io::Error::new(
                 io::ErrorKind::InvalidData,
@@ -39,6 +41,25 @@ where
     // Skip CRC32.
 
     Ok(reader)
+}
+
+// flate2 reports a malformed gzip stream as `InvalidInput`; it is the data that is invalid (and
+// the async reader reports `InvalidData`).
+struct InvalidDataReader<R>(R);
+
+impl<R> Read for InvalidDataReader<R>
+where
+    R: Read,
+{
+    fn read(&mut self, buf: &mut [u8]) -> io::Result<usize> {
+        self.0.read(buf).map_err(|e| {
+            if e.kind() == io::ErrorKind::InvalidInput {
+                io::Error::new(io::ErrorKind::InvalidData, e)
+            } else {
+                e
+            }
+        })
+    }
 }
 
 pub fn read_compression_method<R>(reader: &mut R) -> io::Result<CompressionMethod>
